@@ -229,7 +229,7 @@ def c01_pull_offers(ex, S, T):
         out.append(('eligible-is-offered[%d]' % i, Implies(And(budget, mine, eligible(ex, S, p, t_lo, t_hi)),
                                                            Or(inres, And(dl_due(S, ex, p), Not(q.isnull('completed_at')))))))
         # lease never pushes attempt_at beyond now + maxBackoff + 1s (so a later pull meets it again)
-        mxs = [And(c, q.v['attempt_at'] <= t_hi + Ite(And(Not(s.isnull('max_backoff')), s.v['max_backoff'] > 0), s.v['max_backoff'], MAX_DEFAULT) + 10**9 + 2)
+        mxs = [And(c, q.v['attempt_at'] <= t_hi + Ite(And(Not(s.isnull('max_backoff')), s.v['max_backoff'] > 0), s.v['max_backoff'], MAX_DEFAULT) + 2 * 10**9)
                for c, s in sub_of(S, ex, p)]
         out.append(('lease-bounded[%d]' % i, Implies(And(p.exists, inres), Or(*mxs))))
     return out
